@@ -60,6 +60,7 @@ class Config:
     grad_scaler: float | None = None
     sgd_lr: float = 0.05
     union: int = 1                 # W=1 run on the union of `union` rank batches
+    gpt: dict | None = None        # GPT-NeoX runs: {'D','M','bias_col','bias_row',...}
 
     def to_json(self) -> dict[str, Any]:
         return asdict(self)
